@@ -62,8 +62,9 @@ let sst_id (x : entry list) : int =
   match Hashtbl.find_opt sst_ids k with
   | Some i -> i
   | None -> let i = Hashtbl.length sst_ids + 1 in Hashtbl.add sst_ids k i; Hashtbl.add sst_of_id i x; i
-let dir_id (d : entry list list) : int =
-  let k = String.concat "+" (List.map (fun x -> string_of_int (sst_id x)) d) in
+let dir_id (d : entry list) : int =
+  (* a compaction directory is named by the sum of its inputs' setsums = by all their entries *)
+  let k = show_entries d in
   match Hashtbl.find_opt dir_ids k with
   | Some i -> i
   | None -> let i = Hashtbl.length dir_ids + 1 in Hashtbl.add dir_ids k i; i
